@@ -118,8 +118,9 @@ Proof.
   destruct (jget j K_DISTANCES) as [di|] eqn:Hdi; [|right; exists 3%nat; reflexivity].
   destruct (is_null du || is_null di) eqn:Hnull; [left; exists []; reflexivity|].
   destruct (jidx du 0) as [d0|] eqn:Hd0; [|right; exists 3%nat; reflexivity].
+  destruct (is_null d0) eqn:Hnull0; [left; exists []; reflexivity|].
   destruct (jidx di 0) as [x0|] eqn:Hx0; [|right; exists 3%nat; reflexivity].
-  destruct (is_null d0 || is_null x0) eqn:Hnull0; [left; exists []; reflexivity|].
+  destruct (is_null x0) eqn:Hnull1; [left; exists []; reflexivity|].
   cbv zeta.
   destruct (Nat.ltb 0 (jsize d0) && Nat.ltb 0 (jsize x0)) eqn:Hsz; [|left; exists []; reflexivity].
   (* is durations[0] an array? *)
@@ -167,8 +168,9 @@ Proof.
     destruct (jget j K_DISTANCES) as [di|] eqn:Hdi; [|discriminate H].
     destruct (is_null du || is_null di) eqn:Hnull; [apply Hnil; inversion H; reflexivity|].
     destruct (jidx du 0) as [d0|] eqn:Hd0; [|discriminate H].
+    destruct (is_null d0) eqn:Hnull0; [apply Hnil; inversion H; reflexivity|].
     destruct (jidx di 0) as [x0|] eqn:Hx0; [|discriminate H].
-    destruct (is_null d0 || is_null x0) eqn:Hnull0; [apply Hnil; inversion H; reflexivity|].
+    destruct (is_null x0) eqn:Hnull1; [apply Hnil; inversion H; reflexivity|].
     cbv zeta in H.
     destruct (Nat.ltb 0 (jsize d0) && Nat.ltb 0 (jsize x0)) eqn:Hsz;
       [|apply Hnil; inversion H; reflexivity].
